@@ -40,8 +40,9 @@ theorem World.dispatch_accepted {w : World} (hw : WInv w) (hv : Valid w.cfg.I) {
       (∀ i, i ∉ w.subs → (w.dispatch j p m).1.heap[i]? = w.heap[i]?) ∧
       (∀ i ∈ w.subs, ∀ o, w.heap[i]? = some o →
         (w.dispatch j p m).1.heap[i]? = some (Obs.updateSpec w.cfg s' i x o).1) ∧
-      (w.dispatch j p m).1.trace = w.trace ++ w.subs.flatMap fun id => match w.heap[id]? with
-        | some o => (Obs.updateSpec w.cfg s' id x o).2 | none => [] := by
+      ((w.dispatch j p m).1.trace = w.trace ++ w.subs.flatMap fun id => match w.heap[id]? with
+        | some o => (Obs.updateSpec w.cfg s' id x o).2 | none => []) ∧
+      (w.dispatch j p m).1.accepted = w.accepted ++ [x] := by
   obtain ⟨mm, op, hsp, hmem, _⟩ := dispatchReq_entry hw.inv.cinv.wf hd
   have hcache : s'.cache = {} := by rw [hsp.eq]
   have hok' : CacheOK w.cfg s' := cacheOK_empty _ _ hcache
@@ -58,7 +59,7 @@ theorem World.dispatch_accepted {w : World} (hw : WInv w) (hv : Valid w.cfg.I) {
     obtain ⟨heq, hok2, k', hk'⟩ := notifyAll_eq_pure (update_callOK w.cfg s' x) w.subs s'.cache w.heap w.trace
       (by rw [← hs']; exact hok')
     rw [← hs'] at heq hok2 hk'
-    refine ⟨x, hxm, hxp.1, hxp.2, ?_, ?_, ?_, ?_, ?_, ?_, ?_, ?_, ?_⟩ <;>
+    refine ⟨x, hxm, hxp.1, hxp.2, ?_, ?_, ?_, ?_, ?_, ?_, ?_, ?_, ?_, ?_⟩ <;>
       simp only [World.dispatch, hd, hfind]
     · exact ⟨k', hk'⟩
     · exact hok2
@@ -78,13 +79,14 @@ theorem World.reset_spec {w : World} (hw : WInv w) :
     w.reset.subs = w.subs ∧ w.reset.heap.length = w.heap.length ∧
     (∀ i, i ∉ w.subs → w.reset.heap[i]? = w.heap[i]?) ∧
     (∀ i ∈ w.subs, ∀ o, w.heap[i]? = some o → w.reset.heap[i]? = some (Obs.resetSpec w.cfg (JS.init w.cfg.I) i o).1) ∧
-    w.reset.trace = w.trace ++ w.subs.flatMap fun id => match w.heap[id]? with
-      | some o => (Obs.resetSpec w.cfg (JS.init w.cfg.I) id o).2 | none => [] := by
+    (w.reset.trace = w.trace ++ w.subs.flatMap fun id => match w.heap[id]? with
+      | some o => (Obs.resetSpec w.cfg (JS.init w.cfg.I) id o).2 | none => []) ∧
+    w.reset.accepted = [] := by
   have hs0 : JS.init w.cfg.I = setCache (JS.init w.cfg.I) (JS.init w.cfg.I).cache := rfl
   obtain ⟨heq, hok2, k', hk'⟩ := notifyAll_eq_pure (reset_callOK w.cfg (JS.init w.cfg.I)) w.subs
     (JS.init w.cfg.I).cache w.heap w.trace (by rw [← hs0]; exact cacheOK_empty _ _ rfl)
   rw [← hs0] at heq hok2 hk'
-  refine ⟨rfl, ⟨k', hk'⟩, hok2, rfl, ?_, ?_, ?_, ?_⟩ <;> simp only [World.reset, JS.reset]
+  refine ⟨rfl, ⟨k', hk'⟩, hok2, rfl, ?_, ?_, ?_, ?_, rfl⟩ <;> simp only [World.reset, JS.reset]
   · rw [heq]; exact notifyPure_length _ _ _ _
   · intro i hi; rw [heq]; exact notifyPure_other _ _ _ _ i hi
   · intro i hi o ho; rw [heq]; exact notifyPure_mem _ _ _ _ i hw.nodup hi o ho
@@ -139,8 +141,47 @@ theorem winv_step {w : World} (hw : WInv w) (hv : Valid w.cfg.I) (e : WEv) :
         rcases hid with h | h
         · have := hw.valid id h; omega
         · omega
+  | constructTagged k t =>
+    simp only [World.step, World.construct]
+    split
+    · exact ⟨hw, rfl⟩
+    · refine ⟨⟨hw.inv, ?_, ?_⟩, rfl⟩
+      · simp only
+        rw [List.nodup_append]
+        refine ⟨hw.nodup, by simp, ?_⟩
+        intro a ha b hb
+        simp only [List.mem_singleton] at hb
+        have := hw.valid a ha
+        omega
+      · intro id hid
+        simp only [List.mem_append, List.mem_singleton] at hid
+        simp only [List.length_append, List.length_singleton]
+        rcases hid with h | h
+        · have := hw.valid id h; omega
+        · omega
   | createOrGet k =>
     simp only [World.step, World.createOrGet]
+    split
+    · exact ⟨hw, rfl⟩
+    · simp only [World.construct]
+      split
+      · exact ⟨hw, rfl⟩
+      · refine ⟨⟨hw.inv, ?_, ?_⟩, rfl⟩
+        · simp only
+          rw [List.nodup_append]
+          refine ⟨hw.nodup, by simp, ?_⟩
+          intro a ha b hb
+          simp only [List.mem_singleton] at hb
+          have := hw.valid a ha
+          omega
+        · intro id hid
+          simp only [List.mem_append, List.mem_singleton] at hid
+          simp only [List.length_append, List.length_singleton]
+          rcases hid with h | h
+          · have := hw.valid id h; omega
+          · omega
+  | createOrGetCond k t =>
+    simp only [World.step, World.createOrGetCond]
     split
     · exact ⟨hw, rfl⟩
     · simp only [World.construct]
